@@ -11,6 +11,7 @@ import Proofs.Lemmas.C12FormControls
 import Proofs.Lemmas.C12FormTotal
 import Proofs.Lemmas.C12FormGen
 import Proofs.Lemmas.C12FormFlat
+import Proofs.Lemmas.C12FormSelect
 namespace Flatland.C12.Proofs
 open Flatland.Markup Flatland.C12 Flatland.C19.Proofs
 
